@@ -254,8 +254,9 @@ impl AdaptiveCompressor {
             return Ok(());
         }
 
-        // Don't adapt too frequently
-        if count % self.config.evaluation_interval != 0 {
+        // Don't adapt too frequently (an interval of zero means "never re-evaluate";
+        // taking the remainder by it would panic)
+        if self.config.evaluation_interval == 0 || count % self.config.evaluation_interval != 0 {
             return Ok(());
         }
 
